@@ -1,7 +1,7 @@
 """Home of the `RemainingOperationsObserver` class."""
 
 from job_shop_lib import ScheduledOperation
-from job_shop_lib.dispatching import UnscheduledOperationsObserver
+from job_shop_lib.dispatching import Dispatcher, UnscheduledOperationsObserver
 from job_shop_lib.dispatching.feature_observers import (
     FeatureObserver,
     FeatureType,
@@ -16,6 +16,21 @@ class RemainingOperationsObserver(FeatureObserver):
     """
 
     _supported_feature_types = [FeatureType.MACHINES, FeatureType.JOBS]
+
+    def __init__(
+        self,
+        dispatcher: Dispatcher,
+        *,
+        subscribe: bool = True,
+        feature_types: list[FeatureType] | FeatureType | None = None,
+    ):
+        # The `UnscheduledOperationsObserver` must be subscribed before this
+        # observer so that it has already been reset when this observer
+        # re-initializes its features from it in `reset`.
+        dispatcher.create_or_get_observer(UnscheduledOperationsObserver)
+        super().__init__(
+            dispatcher, subscribe=subscribe, feature_types=feature_types
+        )
 
     def initialize_features(self):
         unscheduled_ops_observer = self.dispatcher.create_or_get_observer(
